@@ -454,6 +454,21 @@ func (se *symEval) call(call *ssa.CallCommon, st *sstate, depth int) []spathResu
 		}
 		return []spathResult{{ret: []sval{sv("UNK:builtin:" + b.Name())}, st: st}}
 	}
+	// an interface method called on a known function value: the value was converted to a func-typed adapter
+	// (MatcherFunc, http.HandlerFunc) whose method calls the function with the same arguments
+	if call.IsInvoke() && len(args) > 0 && args[0].e == "FUNC" && args[0].fn != nil && len(args[0].fn.Params) == len(args)-1 && depth < 6 {
+		var rs []spathResult
+		for _, r := range se.run(args[0].fn, args[1:], args[0].free, st, depth+1) {
+			if r.pan {
+				continue
+			}
+			ns := &sstate{env: st.clone().env, heap: r.st.heap, effects: r.st.effects}
+			rs = append(rs, spathResult{ret: r.ret, st: ns})
+		}
+		if len(rs) > 0 {
+			return rs
+		}
+	}
 	if se.model != nil {
 		if outs, ok := se.model(se, name, call, args, st); ok {
 			var rs []spathResult
